@@ -40,6 +40,9 @@ func genStep(p *Profile, cfg *Config) *rapid.Generator[[]Op] {
 	return rapid.Custom(func(t *rapid.T) []Op {
 		pick := func() Op {
 			op := Op{K: "pick", M: rapid.SampledFrom(p.Methods).Draw(t, "m"), Key: rapid.IntRange(0, 3).Draw(t, "key")}
+			if rapid.IntRange(0, 9).Draw(t, "widekey") == 0 {
+				op.Key = rapid.IntRange(5, 11).Draw(t, "keywide")
+			}
 			if rapid.IntRange(0, 4).Draw(t, "stale") == 0 {
 				op.Pk = rapid.IntRange(1, 8).Draw(t, "pk")
 			}
@@ -100,7 +103,7 @@ func genStep(p *Profile, cfg *Config) *rapid.Generator[[]Op] {
 		case "done":
 			return []Op{done()}
 		case "adv":
-			return []Op{{K: "adv", Ns: rapid.SampledFrom([]int64{1, 1e6, 7e6, 7e6 + 1, 14e6, 50e6, 100e6, 100e6 + 1, 200e6 + 1, 1e9, 3600e9}).Draw(t, "ns")}}
+			return []Op{{K: "adv", Ns: rapid.SampledFrom([]int64{1, 1e6, 7e6, 7e6 + 1, 14e6, 50e6, 100e6, 100e6 + 1, 200e6 + 1, 1e9, 3600e9, 30 * 24 * 3600e9, 400 * 24 * 3600e9}).Draw(t, "ns")}}
 		case "failnew":
 			return []Op{{K: "failnew", B: rapid.Bool().Draw(t, "b")}}
 		case "cancel":
@@ -149,6 +152,9 @@ func genStep(p *Profile, cfg *Config) *rapid.Generator[[]Op] {
 		case "refreshcycle":
 			// consecutive refreshes of one channel without any response in between (exponential backoff)
 			n := rapid.IntRange(1, 3).Draw(t, "cycles")
+			if cfg.UdMs > 0 && cfg.UdMs <= 100 && rapid.IntRange(0, 14).Draw(t, "manycycles") == 0 {
+				n = rapid.IntRange(8, 36).Draw(t, "cyclesmany") // long runs of refreshes without a response: large backoff exponents
+			}
 			calls := cfg.UdCalls
 			if calls < 1 {
 				calls = 1
@@ -278,6 +284,9 @@ func genStep(p *Profile, cfg *Config) *rapid.Generator[[]Op] {
 			return ops
 		case "saturate":
 			n := rapid.IntRange(2, 8).Draw(t, "n")
+			if rapid.IntRange(0, 29).Draw(t, "heavy") == 0 {
+				n = rapid.SampledFrom([]int{130, 260, 520}).Draw(t, "nheavy") // stream counts beyond 8-bit ranges
+			}
 			var ops []Op
 			for i := 0; i < n; i++ {
 				ops = append(ops, Op{K: "pick", M: 0})
